@@ -625,3 +625,109 @@ Example C07_s3_url_bucket_key_verbatim_example :
   object_path [47; 98; 47] (chunk_rel [119; 95; 99] [0])
   = [47; 98; 47; 119; 95; 99; 47; 48; 48; 48; 48; 48; 46; 110; 112; 121].
 Proof. exact url_bucket_key_verbatim_example. Qed.
+
+(* ---- the BYTES of the .npy object of a chunk (Model/ChunksNpy.v over C08's container model Model/Npy.v) ----
+   An element is the list of its itemsize bytes; a dtype is its .npy descriptor (`dtype_ok descr isz`: printable
+   characters other than quote and backslash, byte order + kind + decimal item size isz, kind one of b i u f c S V, in
+   either byte order; str 'U' (4 bytes per character), datetimes and structured dtypes: correspondence only); the header text is numpy's canonical dict literal.  The format version katdal writes
+   (cs_npy_write_major) and the versions katdal's own reader accepts (cs_npy_read_versions) are re-translated from the
+   source at every run; the statements break if the reader stops accepting what the writer writes.
+   Domain in the statements: shape entries >= 0 (any rank incl. 0-d), every element has itemsize bytes, and
+   `hdr_small`: the unpadded header text is at most 10000 - 64 bytes (numpy's readers refuse longer headers). *)
+From KV Require Import Model.Npy Model.ChunksNpy Proofs.NpyHdrP Proofs.ChunksNpyP.
+
+(* put_chunk then get_chunk at the level of the stored bytes: whatever the memory layout of the chunk handed in, the
+   file NpyFileChunkStore writes / the object body S3ChunkStore sends is read back by np.load AND by katdal's
+   read_array as the same dtype descriptor, fortran_order = False, the same shape and the C-order listing of the
+   logical elements, byte for byte; decoding it gives every element back *)
+Theorem C07_npy_file_round_trip : forall descr isz (elem : list Z -> item) shape lay,
+  dtype_ok descr isz ->
+  Forall (fun s => 0 <= s) shape -> (forall q, List.length (elem q) = isz) ->
+  hdr_small descr (NpyObj false shape []) ->
+  let file := npy_file descr elem shape lay in
+  let o := NpyObj false shape (map elem (enumerate shape)) in
+  npy_read_file file = Ok (descr, o) /\ s3_read_file file = Ok (descr, o)
+  /\ forall (d : item) q, In q (enumerate shape) -> npy_decode d o q = elem q.
+Proof. intros descr isz elem shape lay [Hd [Hi _]]. exact (npy_file_round_trip_top descr isz elem shape lay Hd Hi). Qed.
+Print Assumptions C07_npy_file_round_trip.
+
+(* objects of OTHER .npy writers (format 1.0 / 2.0 / 3.0, any padding, C or Fortran order) of the same logical chunk
+   decode element for element; katdal's own reader takes exactly the versions cs_npy_read_versions *)
+Theorem C07_npy_file_foreign_writer : forall major nb pad descr isz (elem : list Z -> item) shape fortran,
+  dtype_ok descr isz -> hlen_bytes major = Some nb ->
+  Forall (fun s => 0 <= s) shape -> (forall q, List.length (elem q) = isz) ->
+  Z.of_nat (List.length (print_hdr_c pad (mkhdr descr fortran (shape_nat shape)))) <= max_header_size ->
+  let o := npy_foreign elem shape fortran in
+  let file := obj_bytes_v major nb pad descr o in
+  npy_read_file file = Ok (descr, o)
+  /\ (existsb (Z.eqb major) cs_npy_read_versions = true -> s3_read_file file = Ok (descr, o))
+  /\ forall (d : item) q, In q (enumerate shape) -> npy_decode d o q = elem q.
+Proof.
+  intros major nb pad descr isz elem shape fortran [Hd [Hi _]].
+  exact (npy_foreign_file_top major nb pad descr isz elem shape fortran Hd Hi).
+Qed.
+Print Assumptions C07_npy_file_foreign_writer.
+
+(* header padding: the object katdal writes is header ++ body with the magic string and version up front and the
+   body starting on a multiple of 64 bytes; the padding is between 1 and 64 spaces *)
+Theorem C07_npy_body_offset_aligned : forall descr o,
+  (exists h, obj_bytes descr o = h ++ obj_body o /\ Z.of_nat (List.length h) mod 64 = 0
+             /\ firstn 8 h = magic_prefix ++ [cs_npy_write_major; 0])
+  /\ (1 <= npy_pad katdal_nb (obj_hdr descr o) <= 64)%nat.
+Proof. intros descr o. split; [exact (body_offset_aligned descr o)|exact (pad_range katdal_nb (obj_hdr descr o))]. Qed.
+Print Assumptions C07_npy_body_offset_aligned.
+
+(* what must NOT happen: two chunks that differ in dtype descriptor, shape or any byte of any element never give the
+   same stored bytes *)
+Theorem C07_npy_file_injective : forall d1 d2 i1 i2 o1 o2,
+  dtype_ok d1 i1 -> dtype_ok d2 i2 ->
+  hdr_small d1 o1 -> hdr_small d2 o2 -> wf_obj i1 o1 -> wf_obj i2 o2 ->
+  obj_bytes d1 o1 = obj_bytes d2 o2 -> d1 = d2 /\ o1 = o2.
+Proof.
+  intros d1 d2 i1 i2 o1 o2 [D1 [I1 _]] [D2 [I2 _]]. exact (obj_bytes_injective d1 d2 i1 i2 o1 o2 D1 D2 I1 I2).
+Qed.
+Print Assumptions C07_npy_file_injective.
+
+(* get_chunk on stored bytes: asked for the dtype and shape the chunk was written with it returns the chunk, asked for
+   any other dtype descriptor or shape it raises BadChunk (2) -- and whatever the bytes are, data come back only under
+   the dtype and shape asked for *)
+Theorem C07_npy_get_chunk_checks_dtype_and_shape : forall s3 descr isz (elem : list Z -> item) shape lay,
+  dtype_ok descr isz ->
+  Forall (fun s => 0 <= s) shape -> (forall q, List.length (elem q) = isz) ->
+  hdr_small descr (NpyObj false shape []) ->
+  get_chunk_file s3 descr shape (npy_file descr elem shape lay)
+  = (0, Some (NpyObj false shape (map elem (enumerate shape))))
+  /\ (forall wd ws, wd <> descr \/ ws <> shape ->
+      get_chunk_file s3 wd ws (npy_file descr elem shape lay) = (2, None)).
+Proof. intros s3 descr isz elem shape lay [Hd [Hi _]]. exact (get_chunk_file_ok s3 descr isz elem shape lay Hd Hi). Qed.
+Print Assumptions C07_npy_get_chunk_checks_dtype_and_shape.
+
+Theorem C07_npy_get_chunk_any_bytes : forall s3 wd ws bs o,
+  get_chunk_file s3 wd ws bs = (0, Some o) ->
+  (if s3 then s3_read_file bs else npy_read_file bs) = Ok (wd, o) /\ exists fo body, o = NpyObj fo ws body.
+Proof. exact get_chunk_file_checked. Qed.
+Print Assumptions C07_npy_get_chunk_any_bytes.
+
+(* non-vacuity: a (2, 3) '<i2' chunk handed in Fortran layout is the 140-byte file numpy writes (10 + 118 bytes of
+   header ending in "\n", 12 bytes of body in C order); a 0-d and an empty chunk; a format 2.0 Fortran-ordered object
+   of an old numpy (first index fastest in the body), format 3.0 refused by katdal's reader *)
+Example C07_npy_file_examples :
+  (let file := npy_file ex_descr ex_elem [2; 3] LayF in
+   List.length file = 140%nat
+   /\ firstn 10 file = [147; 78; 85; 77; 80; 89; 1; 0; 118; 0]
+   /\ skipn 128 file = [0; 0; 1; 0; 2; 0; 3; 0; 4; 0; 5; 0]
+   /\ nth 127 file 0 = 10
+   /\ npy_read_file file = Ok (ex_descr, NpyObj false [2; 3] (map ex_elem (enumerate [2; 3])))
+   /\ s3_read_file file = npy_read_file file)
+  /\ (npy_read_file (npy_file ex_descr ex_elem [] LayC) = Ok (ex_descr, NpyObj false [] [[0; 0]])
+      /\ s3_read_file (npy_file ex_descr ex_elem [0; 2] LayOther) = Ok (ex_descr, NpyObj false [0; 2] []))
+  /\ (let o := npy_foreign ex_elem [2; 3] true in
+      obj_body o = [0; 0; 3; 0; 1; 0; 4; 0; 2; 0; 5; 0]
+      /\ s3_read_file (obj_bytes_v 2 4 5 ex_descr o) = Ok (ex_descr, o)
+      /\ map (npy_decode [] o) (enumerate [2; 3]) = map ex_elem (enumerate [2; 3])
+      /\ s3_read_file (obj_bytes_v 3 4 5 ex_descr o) = Err EValue).
+Proof. split; [exact ex_file|]. split; [exact ex_file_0d|exact ex_foreign]. Qed.
+Example C07_npy_dtype_ok_examples :
+  dtype_ok ex_descr 2 /\ dtype_ok [62; 99; 49; 54] 16 /\ dtype_ok [124; 98; 49] 1 /\ dtype_ok [124; 83; 51] 3
+  /\ kind_modelled [60; 85; 50] = false /\ itemsize [124; 79] = None.
+Proof. repeat split; try reflexivity; repeat constructor. Qed.
